@@ -74,4 +74,5 @@ finally:
     sh('git -C /repo worktree remove --force %s' % SV)
     sh('git -C /repo worktree remove --force %s' % RR)
 for r in results:
-    print(json.dumps(r)[:900])
+    r["summary"] = r.get("summary", "")[:200]
+    print(json.dumps(r))
